@@ -539,6 +539,10 @@ pub fn finish(ctx: &Ctx, shared: &Shared, check: &dyn StateCheck, fin: Finish) -
         eprintln!("MACHINERY: cannot write evidence: {e}");
         exit = 2;
     }
+    // keep the last evidence of each tier as well (evidence/<tier>/<id>.json)
+    let tdir = format!("{}/evidence/{}", verif_root(), ctx.tier_name());
+    let _ = std::fs::create_dir_all(&tdir);
+    let _ = std::fs::write(format!("{tdir}/{property}.json"), serde_json::to_string_pretty(&ev).unwrap());
     g.recorded.clear();
 
     println!(
